@@ -13,12 +13,28 @@ func c11Args(level int64) [][]int64 {
 
 func propTable() map[string]PropSpec {
 	t := map[string]PropSpec{}
-	t["C10"] = PropSpec{
-		ID: "C10",
-		Quick: []TaskSpec{
+	c10 := func(th bool) []TaskSpec {
+		n := int64(8)
+		if th {
+			n = 32
+		}
+		ts := []TaskSpec{
+			{Harness: "HarnessC10Table", Reach: []string{"C10.table.end"}},
 			{Harness: "HarnessC10Step", Reach: []string{"C10.step.end"}},
+			{Harness: "HarnessC10Init", ArgSets: [][]int64{{0}, {1}, {n}}, Reach: []string{"C10.init.end"}},
+			{Harness: "HarnessC10Chunk", ArgSets: [][]int64{{1}, {2}, {n}}, Reach: []string{"C10.chunk.end"}},
+			{Harness: "HarnessC10Residue", Reach: []string{"C10.residue.end"}},
+			{Harness: "HarnessC10Full", ArgSets: [][]int64{{0}, {1}}, Reach: []string{"C10.full.end"}},
+		}
+		return ts
+	}
+	t["C10"] = PropSpec{
+		ID: "C10", Quick: c10(false), Thorough: c10(true),
+		Bounds: map[string]string{
+			"quick":    "all 256 table entries (symbolic index); one update step for all 2^32 states x 2^8 bytes against the bit-serial shift register (the inductive step: the loop body is the only state transformer); initial value / no final XOR; splitting at every point and byte-wise feeding for messages of 8 symbolic bytes from an arbitrary state; residue 0 for every state; whole-message equivalence with the bit-serial reference for all messages of length 0 and 1",
+			"thorough": "chunking with 32 symbolic bytes",
 		},
-		Bounds: map[string]string{"quick": "all 2^32 states x 2^8 bytes (one symbolic step)"},
+		Outside: "whole-message equivalence for 2 or more symbolic bytes in one query (solver-hard); it follows from table+step+init by induction on the length, which is an argument, not a solver result",
 	}
 	c11 := func(level int64) []TaskSpec {
 		return []TaskSpec{
@@ -179,6 +195,7 @@ func propTable() map[string]PropSpec {
 		return []TaskSpec{
 			{Harness: "HarnessC13Decode", ArgSets: dec, Reach: []string{"C13.decode.end"}},
 			{Harness: "HarnessC13Encode", ArgSets: enc, Reach: []string{"C13.encode.end"}, Asserts: []string{"C13."}},
+			{Harness: "HarnessC13DecodeBig", ArgSets: [][]int64{{2}, {3}, {4}}, Reach: []string{"C13.big.end"}},
 		}
 	}
 	t["C13"] = PropSpec{
@@ -239,7 +256,7 @@ func propTable() map[string]PropSpec {
 				}
 			}
 		}
-		for _, sc := range []int64{1465646, 1475747, 12479317, 14787, 124797967, 1247379, 146146, 1456757} {
+		for _, sc := range []int64{1465646, 1475747, 12479317, 14787, 124797967, 1247379, 146146, 1456757, 14707, 1470709, 10476} {
 			script = append(script, []int64{sc, 2}, []int64{sc, 1})
 		}
 		return []TaskSpec{
@@ -248,10 +265,12 @@ func propTable() map[string]PropSpec {
 			{Harness: "HarnessMuxStep", ArgSets: step, Reach: []string{"mux.step.end"}, Asserts: prefixes},
 			{Harness: "HarnessMuxScript", ArgSets: script, Reach: []string{"mux.script.end"}, Asserts: prefixes},
 			{Harness: "HarnessMuxWrap", Reach: []string{"mux.wrap.end"}, Asserts: prefixes},
+			{Harness: "HarnessMuxPeriod", ArgSets: [][]int64{{1}, {2}, {39}, {40}, {41}, {42}, {43}, {50}}, Reach: []string{"mux.period.end"}, Asserts: prefixes},
+			{Harness: "HarnessMuxBig", ArgSets: [][]int64{{65527, 1}, {65528, 1}, {65530, 1}, {65535, 1}, {65536, 1}, {65530, 0}}, Reach: []string{"mux.big.end"}, Asserts: prefixes},
 		}
 	}
 	muxBounds := map[string]string{
-		"quick":    "one inductive step from an arbitrary valid Muxer state (0..2 streams; every counter, version, dirty flag and the retransmit counter symbolic under the stated invariant; retransmit period 1 and 3) for each of the 8 operations with symbolic arguments, invariant re-checked after the step; all operation histories of length <= 3 from NewMuxer over {Add explicit/auto, Remove, SetPCRPID, WriteTables, WriteData (2 PIDs, with/without AF, 1 or 190 payload bytes), WriteData with an oversized AF, WritePacket 184/185 bytes}; 8 scripted histories of 5-9 operations around failed table emissions and remove/re-add; WriteData with first-packet AF {none, PCR+RAI, private data+RAI, 175-byte private data} x timestamps {none, PTS+DTS} x 18 payload lengths around the 184-byte boundaries (1..372) x {first call, later call}, symbolic PID/stream type/payload/timestamps/PCR; 18 units and 34 content changes for counter/version wrap-around; every output is also demultiplexed by the real Demuxer (C01)",
+		"quick":    "one inductive step from an arbitrary valid Muxer state (0..2 streams; every counter, version, dirty flag and the retransmit counter symbolic under the stated invariant; retransmit period 1 and 3) for each of the 8 operations with symbolic arguments, invariant re-checked after the step; all operation histories of length <= 3 from NewMuxer over {Add explicit/auto, Remove, SetPCRPID, WriteTables, WriteData (2 PIDs, with/without AF, 1 or 190 payload bytes), WriteData with an oversized AF, WritePacket 184/185 bytes}; 8 scripted histories of 5-9 operations around failed table emissions and remove/re-add; WriteData with first-packet AF {none, PCR+RAI, private data+RAI, 175-byte private data} x timestamps {none, PTS+DTS} x 18 payload lengths around the 184-byte boundaries (1..372) x {first call, later call}, symbolic PID/stream type/payload/timestamps/PCR; 18 units and 34 content changes for counter/version wrap-around; configured retransmit periods {1,2,39,40,41,42,43,50} driven for p+2 calls; two units of 65527/65528/65530/65535/65536 payload bytes (audio and video stream ids) around the PES_packet_length limit; WritePacket with adaptation fields {none, PCR+stuffing, one-byte, private data} and payloads fitting exactly / 1 / 2 bytes over; every output is also demultiplexed by the real Demuxer (C01)",
 		"thorough": "states with up to 3 streams, all WriteData variants in the step, histories of length 4, timestamps {none, PTS, PTS+DTS}",
 	}
 	muxOutside := "more than 3 streams; ES/program descriptors in the PMT (the PMT-larger-than-one-packet rejection is not exercised); payloads longer than 372 bytes including PES_packet_length > 65535 (writePESHeader's length rule is covered for all sizes in C12); histories longer than 4 other than through the inductive step and the scripts"
@@ -272,6 +291,7 @@ func propTable() map[string]PropSpec {
 			{Harness: "HarnessC02PES", ArgSets: pes, Reach: []string{"C02.pes.end"}},
 			{Harness: "HarnessC02PSI", ArgSets: psi, Reach: []string{"C02.psi.end"}},
 			{Harness: "HarnessC02Mixed", ArgSets: [][]int64{{0}, {1}}, Reach: []string{"C02.mixed.end"}},
+			{Harness: "HarnessC02LatePAT"},
 		}
 	}
 	t["C02"] = PropSpec{ID: "C02", Quick: c02(false), Thorough: c02(true),
@@ -419,8 +439,9 @@ func propTable() map[string]PropSpec {
 	t["C20"] = PropSpec{ID: "C20",
 		Quick: []TaskSpec{
 			{Harness: "HarnessC20Rewind", ArgSets: cross(ints(0, 1), ints(0, 1), ints(0, 1)), Reach: []string{"C20.rewind.end"}},
+			{Harness: "HarnessC20RewindLong", ArgSets: [][]int64{{0}, {1}}, Reach: []string{"C20.long.end"}},
 		},
-		Bounds:  map[string]string{"quick": "5-packet stream (PAT precedes PMT) on a seekable reader: every number k of NextPacket (0..5) or NextData (0..4) calls before Rewind, Rewind repeated once with a second k, explicit and auto-detected size; the following full drain equals a fresh demuxer's"},
+		Bounds:  map[string]string{"quick": "21-packet stream with two PES PIDs one of which consumes exactly 16 packets (counter wrap) before the rewind, k = 0..5 NextData calls; 5-packet stream (PAT precedes PMT) on a seekable reader: every number k of NextPacket (0..5) or NextData (0..4) calls before Rewind, Rewind repeated once with a second k, explicit and auto-detected size; the following full drain equals a fresh demuxer's"},
 		Outside: "longer streams"}
 	t["C16"] = PropSpec{ID: "C16",
 		Quick: []TaskSpec{
